@@ -344,6 +344,7 @@ class Loader(importlib.abc.MetaPathFinder, importlib.abc.Loader):
         from . import fs
         fs.FSYS.reset()
         npx.STATE["lazy"] = False
+        npx.STATE["real_rotation"] = False
 
 
 _loader = None
